@@ -171,6 +171,9 @@ func cmdCheck(args []string) int {
 		for l, n := range hr.Unknown {
 			inconclusive = append(inconclusive, fmt.Sprintf("%s: assertion %s undecided by solver on %d paths", hr.Name, l, n))
 		}
+		if hr.ByStatus["done"] == 0 && len(hr.Violations) == 0 {
+			inconclusive = append(inconclusive, fmt.Sprintf("%s: vacuity: no path ran to the end of the harness (path endings: %v)", hr.Name, hr.ByStatus))
+		}
 		if hr.TimedOut {
 			inconclusive = append(inconclusive, hr.Name+": wall-clock budget exhausted before the path set was closed")
 		}
